@@ -500,6 +500,30 @@ func TestHarness(t *testing.T) {
 				for _, l := range lines {
 					r.apply(l)
 				}
+				if try%4 == 3 && len(qs) > 0 {
+					// terminate-then-long-poll script (C05): a worker is marked terminating, its next call is held
+					// for the idle interval, and it asks again before the worker timeout has really passed
+					// while work is queued: it must not get any
+					q := qs[g.rng.Intn(len(qs))]
+					sc := q.sizes[len(q.sizes)-1]
+					h, th := g.rng.Intn(3), g.rng.Intn(2)
+					g.nextK++
+					g.nextC++
+					gap := 5 + g.rng.Intn(8)
+					for _, l := range []string{
+						fmt.Sprintf("1 sync %s %d %d %d.%d i 0 sel=0 bg=- retry=0", q.comps, q.plat, sc, h, th),
+						fmt.Sprintf("1 term %d %d.%d", g.nextK, h, th),
+						fmt.Sprintf("1 sync %s %d %d %d.%d i 0 sel=0 bg=- retry=0", q.comps, q.plat, sc, h, th),
+						"10 touch",
+						fmt.Sprintf("%d exec %d %d %s - 0 sel=%d bg=- retry=0", gap, g.nextC, 4+q.plat, q.comps, len(q.sizes)-1),
+						fmt.Sprintf("0 sync %s %d %d %d.%d i 0 sel=0 bg=- retry=0", q.comps, q.plat, sc, h, th),
+					} {
+						if r.fail == nil {
+							lines = append(lines, l)
+							r.apply(l)
+						}
+					}
+				}
 				for i := 0; i < 60 && r.fail == nil; i++ {
 					l := g.next(r)
 					if try%4 == 2 && len(qs) > 0 {
@@ -547,7 +571,14 @@ func TestHarness(t *testing.T) {
 				// a disagreement with the model of one property's mechanism (e.g. C04's selection functions): look for a violation of that property
 				only = f.prop
 			}
-			if vl, vf := search(lines, qs, seed, only, focus); vf != nil {
+			vl, vf := search(lines, qs, seed, only, focus)
+			if only == "" && o.Prop != "" && (vf == nil || (vf.prop != "" && vf.prop != o.Prop)) {
+				// prefer a failing input for the property this run was asked about
+				if vl2, vf2 := search(lines, qs, seed+7, o.Prop, focus); vf2 != nil {
+					vl, vf, only = vl2, vf2, o.Prop
+				}
+			}
+			if vf != nil {
 				res.Count("mismatch-turned-into-failing-input")
 				// shrink in monitor-only mode
 				fails := func(cand []string) bool {
